@@ -3,6 +3,7 @@ package scen
 import (
 	"bytes"
 	"fmt"
+	"strings"
 
 	"simlal/sim"
 	"simlal/sim/actors"
@@ -74,6 +75,15 @@ func (rr *RelayRun) Forwardable(stream int) []FUnit {
 
 func consItems(c *ConsState) []RItem {
 	var out []RItem
+	if c.Push != nil {
+		for _, m := range c.Push.Recv {
+			pl := m.Payload
+			if m.Type == rtmpc.TypeDataAmf0 {
+				pl = stripSdf(pl) // that the prefix is present is checked by the caller
+			}
+			out = append(out, RItem{Type: m.Type, Ts: m.Ts, Payload: pl, Step: m.Step, Ms: m.Ms})
+		}
+	}
 	if c.Rtmp != nil {
 		for _, m := range c.Rtmp.Recv {
 			out = append(out, RItem{Type: m.Type, Ts: m.Ts, Payload: m.Payload, Step: m.Step, Ms: m.Ms})
@@ -165,6 +175,61 @@ func CheckC01(k *sim.Kernel, rr *RelayRun) {
 		name := fmt.Sprintf("cons%d(%s)", ci, c.Plan.Proto)
 		JudgeConsumer(k, "C01", name, c, rr.Forwardable(c.Plan.Stream), rr.Plan.Conf)
 	}
+	// relay-push targets: what lal publishes to a target is the publisher's stream, metadata with @setDataFrame ensured
+	for pi, c := range rr.PushCons {
+		st := c.Push
+		name := fmt.Sprintf("push%d(%s)", pi, st.Stream)
+		if st.ParseErr != nil {
+			k.Violate("C01.framing", "%s: the chunk stream lal pushes does not parse: %v", name, st.ParseErr)
+		}
+		stream := -1
+		for i := 0; i < 8; i++ {
+			if st.Stream == StreamName(i) || strings.HasPrefix(st.Stream, StreamName(i)+"?") {
+				stream = i
+			}
+		}
+		if stream < 0 || !st.Started {
+			continue
+		}
+		for j, m := range st.Recv {
+			if m.Type == rtmpc.TypeDataAmf0 && !bytes.HasPrefix(m.Payload, sdfPrefix) {
+				k.Violate("C01.push-metadata", "%s: metadata message #%d pushed to the target does not start with @setDataFrame: %x...", name, j, head(m.Payload, 24))
+			}
+		}
+		c.Plan.Stream = stream
+		// a push session serves one incarnation of the stream (usually the publisher that was the input when it was
+		// started; a session that attached only after that publisher had left serves the next one): take the
+		// incarnation of the first item it received
+		F := rr.Forwardable(stream)
+		inc := -1
+		R := consItems(c)
+	findInc:
+		for j := range R {
+			if _, _, _, ok := media.ParseID(R[j].Payload); !ok {
+				continue // sequence headers look the same in every incarnation
+			}
+			for p := range F {
+				if F[p].equals(&R[j]) {
+					inc = F[p].Pub
+					break findInc
+				}
+			}
+			k.Violate("C01.content", "%s: received item #%d %s equals no published unit", name, j, describe(&R[j]))
+		}
+		if inc < 0 {
+			continue // nothing attributable received (headers only): nothing to judge
+		}
+		var Fi []FUnit
+		for _, f := range F {
+			if f.Pub == inc {
+				Fi = append(Fi, f)
+			}
+		}
+		JudgeConsumer(k, "C01", name, c, Fi, rr.Plan.Conf)
+		if len(st.Recv) > 0 {
+			k.Probe("c01_push_targets_judged")
+		}
+	}
 }
 
 // JudgeConsumer applies the relay-integrity oracle to one RTMP / FLV consumer against the forwardable
@@ -203,7 +268,7 @@ func JudgeConsumer(k *sim.Kernel, prop string, name string, c *ConsState, F []FU
 		}
 		joinDone := c.JoinDoneStep()
 		gop := conf.RtmpGop
-		if c.Plan.Proto != "rtmp" {
+		if c.Plan.Proto != "rtmp" && c.Plan.Proto != "push" {
 			gop = conf.FlvGop
 		}
 		// prologue: headers and metadata; frames only from the GOP cache, i.e. handed to lal before the join completed
@@ -285,7 +350,7 @@ func JudgeConsumer(k *sim.Kernel, prop string, name string, c *ConsState, F []FU
 			}
 		}
 		tailAllow := 0
-		if c.Plan.Proto == "rtmp" {
+		if c.Plan.Proto == "rtmp" || c.Plan.Proto == "push" {
 			tailAllow = conf.MergeWrite
 		}
 		if mustFrom >= 0 && mustFrom < end {
